@@ -1,6 +1,7 @@
 package main
 
 import (
+	"strconv"
 	"fmt"
 	"math/big"
 	"os"
@@ -100,6 +101,16 @@ func c07Genesis(dir string) (*store.ChainDatabase, common.Hash) {
 		panic(err)
 	}
 	return db, h
+}
+
+// c07WantInit: the base state by construction (what c07Genesis writes), in the order the init lines are emitted
+var c07WantInit = []string{
+	"init 0 bal 1000", "init 0 votes 9", "init 0 votefor 0", "init 0 profile 1 5", "init 0 assetcode 1 500 7 -", "init 0 assetid 1 3", "init 0 equity 1 40",
+	"init 0 base 1 1", "init 0 base 4 1", "init 0 base 8 1", "init 0 base 10 1", "init 0 base 13 1", "init 0 base 18 1",
+	"init 1 bal 70", "init 1 votes 0", "init 1 votefor 0", "init 1 storage 1 11", "init 1 storage 2 12", "init 1 code 1", "init 1 equity 1 5",
+	"init 1 base 1 1", "init 1 base 2 2", "init 1 base 10 1", "init 1 base 14 1",
+	"init 2 bal 50", "init 2 votes 0", "init 2 votefor 0", "init 2 signers - 1:60 2:50", "init 2 base 1 1", "init 2 base 19 1",
+	"init 3 bal 0", "init 3 votes 0", "init 3 votefor 0",
 }
 
 // ---- canonical observation --------------------------------------------------
@@ -246,6 +257,36 @@ func c07(c *Ctx) {
 	defer os.RemoveAll(dir)
 	db, gh := c07Genesis(dir)
 	defer db.Close()
+	// strict view of what a FRESH manager would load for the base block: nothing executed on a manager that is
+	// later thrown away may change it ("discard leaves no trace"), not even by adding an empty-valued map key
+	strictView := func() map[int]string {
+		m := map[int]string{}
+		adb, err := db.GetActDatabase(gh)
+		if err != nil {
+			return m
+		}
+		for i, addr := range c07Addrs {
+			x, err := adb.Get(addr)
+			if err != nil {
+				m[i] = "absent"
+				continue
+			}
+			var pk []string
+			for k, v := range x.Candidate.Profile {
+				pk = append(pk, k+"="+v)
+			}
+			sort.Strings(pk)
+			var rk []string
+			for k, v := range x.NewestRecords {
+				rk = append(rk, fmt.Sprintf("%d:%d@%d", k, v.Version, v.Height))
+			}
+			sort.Strings(rk)
+			m[i] = fmt.Sprintf("profile{%s} records{%s} bal=%v votes=%v signers=%v", strings.Join(pk, ","), strings.Join(rk, ","), x.Balance, x.Candidate.Votes, x.Signers)
+		}
+		return m
+	}
+	// taken before ANY manager has read the base block: a leak caused by a pure read is not part of the expectation
+	leakBase := strictView()
 	c07Merge(c)
 	c07Copy(c)
 	w := &c07World{}
@@ -257,10 +298,16 @@ func c07(c *Ctx) {
 		}
 	}
 	newWorld()
-	// describe the base block's state to the model, as read from the real manager
+	// describe the base block's state to the model, as read from the real manager — and compare what was read with
+	// what c07Genesis wrote (the generator knows the base state by construction: a wrong load must not blind the model)
+	var gotInit []string
 	for i, addr := range c07Addrs {
 		a := w.am.GetAccount(addr)
-		ini := func(f string, args ...interface{}) { c.Op(fmt.Sprintf("init %d ", i)+fmt.Sprintf(f, args...), "ok") }
+		ini := func(f string, args ...interface{}) {
+			line := fmt.Sprintf("init %d ", i) + fmt.Sprintf(f, args...)
+			gotInit = append(gotInit, line)
+			c.Op(line, "ok")
+		}
 		ini("bal %s", a.GetBalance().String())
 		ini("votes %s", a.GetVotes().String())
 		vf := a.GetVoteFor()
@@ -304,6 +351,9 @@ func c07(c *Ctx) {
 			}
 		}
 	}
+	if strings.Join(gotInit, "\n") != strings.Join(c07WantInit, "\n") {
+		c.Fail("c07/fed-fact/base-state", fmt.Sprintf("the base block's state as read through a fresh manager differs from what the genesis script wrote:\n read: %v\n want: %v", gotInit, c07WantInit), nil)
+	}
 	newWorld() // the reads above filled caches; start from a clean manager
 	type snap struct {
 		id  int
@@ -313,35 +363,7 @@ func c07(c *Ctx) {
 	var live []snap
 	var script []string
 	tainted := map[string]bool{}
-	// strict view of what a FRESH manager would load for the base block: nothing executed on a manager that is
-	// later thrown away may change it ("discard leaves no trace"), not even by adding an empty-valued map key
-	strictView := func() map[int]string {
-		m := map[int]string{}
-		adb, err := db.GetActDatabase(gh)
-		if err != nil {
-			return m
-		}
-		for i, addr := range c07Addrs {
-			x, err := adb.Get(addr)
-			if err != nil {
-				m[i] = "absent"
-				continue
-			}
-			var pk []string
-			for k, v := range x.Candidate.Profile {
-				pk = append(pk, k+"="+v)
-			}
-			sort.Strings(pk)
-			var rk []string
-			for k, v := range x.NewestRecords {
-				rk = append(rk, fmt.Sprintf("%d:%d@%d", k, v.Version, v.Height))
-			}
-			sort.Strings(rk)
-			m[i] = fmt.Sprintf("profile{%s} records{%s} bal=%v votes=%v signers=%v", strings.Join(pk, ","), strings.Join(rk, ","), x.Balance, x.Candidate.Votes, x.Signers)
-		}
-		return m
-	}
-	leakBase := strictView()
+	emptySui := map[string]bool{}
 	leakSeen := map[string]bool{}
 	opNo := 0
 	emit := func(op, res string) {
@@ -365,8 +387,122 @@ func c07(c *Ctx) {
 			live[i].ops = append(live[i].ops, op)
 		}
 	}
+	// redoAtReset (C07's last clause, judged at journal level over ALL log kinds): the script's surviving change logs,
+	// merged the way a block publishes them and sent through their RLP form, are replayed by RebuildAll onto the base
+	// block; every observable attribute of the four accounts must equal the executed (not yet finalised) state.
+	redoAtReset := func() {
+		if len(script) == 0 {
+			return
+		}
+		// values no transaction can produce (SetAssetCode(nil), an empty signer list, an empty candidate profile) are
+		// accepted by the journal API and exercised by the revert part, but can never be in a block's published logs
+		for _, o := range script {
+			f := strings.Fields(o)
+			if len(f) >= 3 && f[0] == "w" && (f[2] == "acnil" || (f[2] == "signers" && len(f) == 4) || (f[2] == "cand" && len(f) == 5 && f[3] == "0" && f[4] == "0")) {
+				c.Count("redo-at-reset:skipped(script-has-values-no-tx-produces)")
+				return
+			}
+		}
+		_, executed := w.observe()
+		var logs types.ChangeLogSlice
+		if Safe(func() string { w.am.MergeChangeLogs(); logs = w.am.GetChangeLogs(); return "ok" }) != "ok" {
+			c.Fail("c07/redo-failed/merge-panic", fmt.Sprintf("MergeChangeLogs panicked after script %v", script), map[string]interface{}{"script": append([]string{}, script...)})
+			return
+		}
+		blk := &types.Block{Header: &types.Header{ParentHash: gh, Height: 1}, ChangeLogs: logs}
+		am2 := account.NewManager(gh, db)
+		res := Safe(func() string {
+			if err := am2.RebuildAll(CloneBlock(blk)); err != nil {
+				return "err " + err.Error()
+			}
+			return "ok"
+		})
+		c.Count("redo-at-reset:" + res)
+		if res != "ok" {
+			// which log? the shortest prefix of the published list that RebuildAll refuses
+			culprit, kind := "?", "?"
+			for k := 1; k <= len(logs); k++ {
+				pb := &types.Block{Header: &types.Header{ParentHash: gh, Height: 1}, ChangeLogs: logs[:k]}
+				if Safe(func() string {
+					if err := account.NewManager(gh, db).RebuildAll(CloneBlock(pb)); err != nil {
+						return "err"
+					}
+					return "ok"
+				}) != "ok" {
+					culprit, kind = logs[k-1].String(), logs[k-1].LogType.String()
+					break
+				}
+			}
+			c.Fail("c07/redo-failed/journal/"+kind, fmt.Sprintf("RebuildAll of the %d merged logs of the script: %s at log %s; script: %v", len(logs), res, culprit, script), map[string]interface{}{"script": append([]string{}, script...)})
+			return
+		}
+		_, redone := (&c07World{am: am2, initRoots: w.initRoots}).observe()
+		reported := map[string]bool{}
+		for key, want := range executed {
+			if redone[key] == want {
+				continue
+			}
+			acct := key[1:strings.Index(key, ".")]
+			field := key[strings.Index(key, ".")+1:]
+			if field == "sui" && emptySui[acct] {
+				c.Count("redo-at-reset:flag-of-empty-self-destructed-account-not-compared")
+				continue
+			}
+			// shrink to a minimal script with the same mismatch — first without any self-destruct of this account, so that
+			// a defect that does not need one is not filed under the self-destruct findings
+			bad := func(ops []string) bool {
+				r := c07Exec(db, gh, w.initRoots, ops)
+				return !r.panicked && r.redo == "ok" && r.redone[key] != r.executed[key]
+			}
+			keep := make([]bool, len(script))
+			for i, o := range script {
+				keep[i] = o != "w "+acct+" sui"
+			}
+			min := c07Renumber(script, keep)
+			if !bad(min) {
+				min = script
+			}
+			if bad(min) {
+				min = c07Shrink(min, bad)
+			} else {
+				c.Count("redo-at-reset:mismatch-not-reproduced-by-replay")
+			}
+			hasSui, revertedSui := c07SuiClass(min, acct)
+			sig := "c07/redo-mismatch/journal/" + field
+			if hasSui {
+				// the account self-destructs in the minimal script: logs merged in front of the SuicideLog (listed)
+				sig = "c07/redo-mismatch/account-with-suicide-log/journal/" + field
+			}
+			if revertedSui {
+				// a SetSuicide on this account is REVERTED in the minimal script: the executed state is the damaged one
+				// (listed suicide-undo findings); the replay of the logs does not reproduce the damage
+				sig = "c07/redo-mismatch/after-suicide-undo/journal/" + field
+			}
+			r := c07Exec(db, gh, w.initRoots, min)
+			if hasSui && !revertedSui {
+				pub := false
+				ai, _ := strconv.Atoi(acct)
+				for _, t := range r.published[c07Addrs[ai]] {
+					pub = pub || t == "SuicideLog"
+				}
+				if !pub {
+					// the SuicideLog itself is missing from the published list (dropped as "not valuable": the account had
+					// no balance, code hash or COMMITTED storage root at that moment) although writes of the block precede it
+					sig = "c07/redo-mismatch/suicide-log-not-published/journal/" + field
+				}
+			}
+			if reported[sig] {
+				continue
+			}
+			reported[sig] = true
+			c.Fail(sig, fmt.Sprintf("replaying the merged logs onto the base block: %s = %s, the executed state has %s; minimal script (%d of %d ops): %v", key, r.redone[key], r.executed[key], len(min), len(script), min),
+				map[string]interface{}{"script": min, "full_script": append([]string{}, script...)})
+		}
+	}
 	reset := func() {
+		redoAtReset()
 		tainted = map[string]bool{}
+		emptySui = map[string]bool{}
 		newWorld()
 		live = nil
 		script = nil
@@ -553,6 +689,12 @@ func c07(c *Ctx) {
 					return "ok"
 				})
 			case 14:
+				// a self-destruct of an account that is empty at that moment (no balance, code or storage — e.g. init code that
+				// self-destructs) publishes no SuicideLog (not "valuable"): executed = deleted, replayed = never there; the
+				// un-finalised flag differs, the saved states do not — the redo oracle does not compare the flag then
+				if code, _ := a.GetCode(); a.GetBalance().Sign() == 0 && len(code) == 0 && (a.GetStorageRoot() == common.Hash{}) {
+					emptySui[fmt.Sprint(ai)] = true
+				}
 				op, res = fmt.Sprintf("w %d sui", ai), Safe(func() string { a.SetSuicide(true); return "ok" })
 			}
 			c.Count("op:w:" + strings.Fields(op)[2] + ":" + res)
